@@ -48,7 +48,7 @@ type caseT struct {
 	Obs    []string `json:"observations"`
 }
 
-func one(c *vlib.Ctx, w int, bounds []float64, obs []float64, irregular bool) {
+func one(c *vlib.Ctx, w int, bounds []float64, obs []float64, irregular, fixedTime bool) {
 	var bl []string
 	for _, b := range bounds {
 		bl = append(bl, lit(b))
@@ -59,6 +59,10 @@ func one(c *vlib.Ctx, w int, bounds []float64, obs []float64, irregular bool) {
 	}
 	rep := caseT{bl, ol}
 	src := fmt.Sprintf("histogram h buckets %s\n/^(\\S+)$/ {\n  h = float($1)\n}\n", strings.Join(bl, ", "))
+	if fixedTime {
+		// every observation carries the same timestamp (as lines of one second of a log do)
+		src = fmt.Sprintf("histogram h buckets %s\n/^(\\S+)$/ {\n  settime(1600000000)\n  h = float($1)\n}\n", strings.Join(bl, ", "))
+	}
 	name := fmt.Sprintf("w%d.mtail", w)
 	p, err := mt.Load(name, src, mt.Opts{})
 	bk := fmt.Sprintf("bounds=%v", bl)
@@ -116,6 +120,62 @@ func one(c *vlib.Ctx, w int, bounds []float64, obs []float64, irregular bool) {
 	_ = declared
 	want := map[float64]uint64{}
 	var wantSum float64
+	// one exporter for the whole sequence, scraped before the first and after every observation
+	st := metrics.NewStore()
+	_ = st.Add(m)
+	e, err := exporter.New(context.Background(), st, exporter.Hostname("h"))
+	if err != nil {
+		panic(err)
+	}
+	defer e.Stop()
+	scrape := func(nobs int) bool {
+		ol := ol[:nobs]
+		var buf bytes.Buffer
+		if err := e.Write(&buf); err != nil {
+			c.Report(fmt.Sprintf("export %s obs=%v", bk, ol), "export failed: "+err.Error(), rep)
+			return false
+		}
+		var tp expfmt.TextParser
+		fams, err := tp.TextToMetricFamilies(&buf)
+		if err != nil {
+			c.Report(fmt.Sprintf("export-parse %s obs=%v", bk, ol), "exposition does not parse: "+err.Error(), rep)
+			return false
+		}
+		f := fams["h"]
+		if f == nil || f.GetType() != dto.MetricType_HISTOGRAM || len(f.Metric) != 1 {
+			c.Report("export-family "+bk, "no single histogram family h in the exposition", rep)
+			return false
+		}
+		h := f.Metric[0].Histogram
+		var les []float64
+		got := map[float64]uint64{}
+		for _, b := range h.Bucket {
+			les = append(les, b.GetUpperBound())
+			got[b.GetUpperBound()] = b.GetCumulativeCount()
+		}
+		sort.Float64s(les)
+		wantLes := append(append([]float64{}, bounds...), math.Inf(1))
+		// expfmt's parser only yields +Inf if present in text; encoder always writes it.
+		if fmt.Sprint(les) != fmt.Sprint(wantLes) {
+			c.Report("le-set "+bk, fmt.Sprintf("exported upper bounds %v, declared %v plus +Inf", les, bounds), rep)
+		} else {
+			var cum uint64
+			for _, le := range wantLes {
+				cum += want[le]
+				if got[le] != cum {
+					c.Report(fmt.Sprintf("cumulative %s obs=%v", bk, ol), fmt.Sprintf("after %d observations the exported cumulative count for le=%v is %d, want %d", nobs, le, got[le], cum), rep)
+					break
+				}
+			}
+		}
+		if h.GetSampleCount() != uint64(nobs) {
+			c.Report(fmt.Sprintf("export-count %s obs=%v", bk, ol), fmt.Sprintf("exported count %d, want %d", h.GetSampleCount(), nobs), rep)
+		}
+		return true
+	}
+	if !scrape(0) {
+		return
+	}
 	for i, v := range obs {
 		before := bd.GetBuckets()
 		cntBefore := bd.GetCount()
@@ -144,6 +204,9 @@ func one(c *vlib.Ctx, w int, bounds []float64, obs []float64, irregular bool) {
 		} else if where != wb {
 			c.Report(fmt.Sprintf("misbucket %s v=%s", bk, fstr(v)), fmt.Sprintf("observation %s landed in the bucket with upper bound %v, want %v", fstr(v), where, wb), rep)
 		}
+		if i+1 < len(obs) && !scrape(i+1) {
+			return
+		}
 	}
 	// bucket counts sum to the count
 	var tot uint64
@@ -157,55 +220,7 @@ func one(c *vlib.Ctx, w int, bounds []float64, obs []float64, irregular bool) {
 	if !(gs == wantSum || (math.IsNaN(gs) && math.IsNaN(wantSum))) {
 		c.Report(fmt.Sprintf("sum %s obs=%v", bk, ol), fmt.Sprintf("sum is %v, want %v", gs, wantSum), rep)
 	}
-	// export
-	st := metrics.NewStore()
-	_ = st.Add(m)
-	e, err := exporter.New(context.Background(), st, exporter.Hostname("h"))
-	if err != nil {
-		panic(err)
-	}
-	var buf bytes.Buffer
-	if err := e.Write(&buf); err != nil {
-		c.Report(fmt.Sprintf("export %s obs=%v", bk, ol), "export failed: "+err.Error(), rep)
-		return
-	}
-	var tp expfmt.TextParser
-	fams, err := tp.TextToMetricFamilies(&buf)
-	if err != nil {
-		c.Report(fmt.Sprintf("export-parse %s obs=%v", bk, ol), "exposition does not parse: "+err.Error(), rep)
-		return
-	}
-	f := fams["h"]
-	if f == nil || f.GetType() != dto.MetricType_HISTOGRAM || len(f.Metric) != 1 {
-		c.Report("export-family "+bk, "no single histogram family h in the exposition", rep)
-		return
-	}
-	h := f.Metric[0].Histogram
-	var les []float64
-	got := map[float64]uint64{}
-	for _, b := range h.Bucket {
-		les = append(les, b.GetUpperBound())
-		got[b.GetUpperBound()] = b.GetCumulativeCount()
-	}
-	sort.Float64s(les)
-	wantLes := append(append([]float64{}, bounds...), math.Inf(1))
-	// expfmt's parser only yields +Inf if present in text; encoder always writes it.
-	if fmt.Sprint(les) != fmt.Sprint(wantLes) {
-		c.Report("le-set "+bk, fmt.Sprintf("exported upper bounds %v, declared %v plus +Inf", les, bounds), rep)
-	} else {
-		var cum uint64
-		for _, le := range wantLes {
-			cum += want[le]
-			if got[le] != cum {
-				c.Report(fmt.Sprintf("cumulative %s obs=%v", bk, ol), fmt.Sprintf("exported cumulative count for le=%v is %d, want %d", le, got[le], cum), rep)
-				break
-			}
-		}
-	}
-	if h.GetSampleCount() != uint64(len(obs)) {
-		c.Report(fmt.Sprintf("export-count %s obs=%v", bk, ol), fmt.Sprintf("exported count %d, want %d", h.GetSampleCount(), len(obs)), rep)
-	}
-	e.Stop()
+	scrape(len(obs))
 }
 
 func main() {
@@ -276,7 +291,10 @@ func main() {
 	c.Set("irregular_boundary_lists", nIrr)
 	vlib.ParallelW(len(jobs), runtime.NumCPU(), func(w, i int) {
 		j := jobs[i]
-		one(c, w, j.b, j.o, j.irr)
+		one(c, w, j.b, j.o, j.irr, false)
+		if !j.irr && len(j.o) >= 2 {
+			one(c, w, j.b, j.o, false, true)
+		}
 		k := ""
 		if len(j.o) > 0 {
 			k = fmt.Sprint(j.b, fmt.Sprint(j.o))
@@ -291,5 +309,5 @@ func main() {
 		}
 	})
 	c.Set("boundary_lists", len(lists))
-	c.Finish("all strictly increasing boundary lists of length 2-3 over {-1,0,0.5,1,2} × all observation sequences up to the bound over {each boundary, its float neighbours, -5, 1e300, ±Inf, NaN}, through a compiled `histogram h buckets …` program and the Prometheus exposition; plus every such list with one bound repeated or the first two swapped (either refused by the compiler or behaving as the histogram over the distinct sorted bounds); distinct_nontrivial = distinct (bounds, non-empty observation sequence)")
+	c.Finish("all strictly increasing boundary lists of length 2-3 over {-1,0,0.5,1,2} × all observation sequences up to the bound over {each boundary, its float neighbours, -5, 1e300, ±Inf, NaN}, through a compiled `histogram h buckets …` program and the Prometheus exposition of one exporter scraped before the first and after every observation, with processing-time stamps and with one fixed stamp for all observations; plus every such list with one bound repeated or the first two swapped (either refused by the compiler or behaving as the histogram over the distinct sorted bounds); distinct_nontrivial = distinct (bounds, non-empty observation sequence)")
 }
